@@ -383,18 +383,16 @@ def impl(case):
             def finalize(self):
                 return b''
 
-        class StubCipher:
-            def __init__(self, algorithm, mode, backend=None):
-                self.algorithm, self.mode = algorithm, mode
-
-            def encryptor(self):
-                return StubOp(self)
-        old = pinblock.Cipher
-        pinblock.Cipher = StubCipher
+        # the stub sits in the cryptography package itself (Cipher.encryptor), not in a name of the library's modules: where
+        # and how the library builds its cipher object is its own business.  If the stub is never reached (another
+        # backend), the case says so and is not judged
+        from cryptography.hazmat.primitives.ciphers import Cipher as RealCipher
+        old = RealCipher.encryptor
+        RealCipher.encryptor = lambda self: StubOp(self)
         try:
             r = {'pvv': outcome(pvv_call(case), hs)}
         finally:
-            pinblock.Cipher = old
+            RealCipher.encryptor = old
         r['calls'] = calls
         return r
     from cardutil import key as keymod
@@ -562,6 +560,8 @@ def judge(case, io, mo):
         if sv is not None and sv != impl_outcome:
             bad(sig, '%s: implementation %s, extracted specification %s' % (what, impl_outcome, sv))
 
+    if k == 'pvvstub' and not io.get('calls'):
+        return []          # the stub was not reached: nothing known about the ciphertext, nothing to judge
     if k in ('pvv', 'pvvstub'):
         if dom:
             kb = tdes_key(case['key'])
